@@ -70,6 +70,20 @@ class _Chan:
         b = os.read(self.r, 1)
         if not b:
             os._exit(99)
+        return b
+
+    def readline(self):
+        buf = b""
+        while not buf.endswith(b"\n"):
+            b = os.read(self.r, 1)
+            if not b:
+                os._exit(99)
+            buf += b
+        return json.loads(buf)
+
+
+class InjectedIOError(OSError):
+    """The I/O error the parent injects at a scheduling point (grant byte 'e'): the operation does not happen."""
 
 
 class _SortedScandir:
@@ -117,7 +131,9 @@ def install_step_shims(chan, root, salt, chunks=CHUNKS, lock_chunks=LOCK_CHUNKS)
     def point(op, **kw):
         kw.update(t="op", op=op)
         chan.send(kw)
-        chan.wait()
+        if chan.wait() == b"e":
+            import errno
+            raise InjectedIOError(errno.ENOSPC, "No space left on device (injected)", kw.get("path"))
 
     real_open = builtins.open
     real_mkdir = os.mkdir
@@ -279,6 +295,40 @@ def child_main(chan, root, task, step, salt):
             if tasks:
                 files = io_util.get_filtered_by_element(files, tasks)
             out["ret"] = BackupManager(root).create_backup(files, backup_name=name)
+        elif kind == "backup_api_retry":
+            # ONE manager object; an injected I/O error is caught by the caller, who calls create_backup on it again
+            name, exclude, tasks = task[1], list(task[2]), list(task[3])
+            files = io_util.get_file_list(root, name_suffix=["events"], extensions=[".tsv"], exclude_dirs=exclude)
+            if tasks:
+                files = io_util.get_filtered_by_element(files, tasks)
+            bm = BackupManager(root)
+            while True:
+                try:
+                    out["ret"] = bm.create_backup(files, backup_name=name)
+                    break
+                except InjectedIOError as ex:
+                    chan.send({"t": "op", "op": "caught", "exc": type(ex).__name__, "path": getattr(ex, "filename", None)})
+                    if chan.wait() == b"e":
+                        raise
+        elif kind == "session":
+            # ONE manager object serving several requests (restores with different task selections, ...)
+            bm = None
+            while True:
+                chan.send({"t": "op", "op": "ready"})
+                cmd = chan.readline()
+                res = {"t": "res", "result": "ok"}
+                try:
+                    if cmd[0] == "quit":
+                        break
+                    if bm is None:
+                        bm = BackupManager(root)
+                    if cmd[0] == "restore_api":
+                        bm.restore_backup(cmd[1], task_names=list(cmd[2]), verbose=False)
+                    else:
+                        res["result"] = "badtask"
+                except BaseException as ex:   # noqa
+                    res.update(_describe(ex))
+                chan.send(res)
         elif kind == "reopen":
             bm = BackupManager(root)
             rec = bm.get_backup(task[1])
@@ -347,6 +397,24 @@ class Child:
 
     def grant(self):
         os.write(self.wfd, b"g")
+
+    def fail(self):
+        """Let the pending operation fail with an I/O error instead of happening; returns the next report."""
+        os.write(self.wfd, b"e")
+        return self.advance()
+
+    def command(self, cmd):
+        """Session children: send one request, return its result (the child is then ready for the next one)."""
+        os.write(self.wfd, (json.dumps(cmd) + "\n").encode())
+        res = self._readline()
+        if res is None:
+            self.dead = True
+            return {"result": "died"}
+        nxt = self._readline()
+        self.pending = nxt if nxt and nxt.get("t") == "op" else None
+        if nxt is None:
+            self.dead = True
+        return res
 
     def step(self):
         self.grant()
